@@ -1,5 +1,6 @@
 """C20 — type evaluation functions follow their specification (kind E with reference interpreter)."""
 import itertools
+import sys
 import re
 
 from mc.core import UnitResult
@@ -23,6 +24,12 @@ RETS = ["list[int]", "list[str]", "list[bytes]", "list[None]"]
 XPRIMS = ["is_of_type(x, int)", "is_of_type(x, str)", "is_of_type(x, None)", "is_of_type(x, Literal[1])", "is_of_type(x, int, exclude_any=False)", "is_of_type(x, str, exclude_any=False)",
           "x is None", "x is not None", "x == 1", 'x != "a"', "is_of_type(x, Union[int, None])"]
 KPRIMS = ["is_provided(y)", "is_positional(y)", "is_keyword(y)", "is_provided(k)", "is_keyword(k)", "is_positional(k)", "sys.version_info >= (3, 0)", 'sys.platform == "nope"']
+# version and platform tests (PEP 484 forms) around the running interpreter: every operator against (major, minor), (major, minor, 0) and the next minor; evaluated by Python itself
+_VMM = sys.version_info[:2]
+VPRIMS = (["sys.version_info %s (%d, %d)" % (op, _VMM[0], _VMM[1]) for op in (">", ">=", "<", "<=", "==", "!=")]
+          + ["sys.version_info %s (%d, %d, 0)" % (op, _VMM[0], _VMM[1]) for op in (">=", "<", ">")]
+          + ["sys.version_info %s (%d, %d)" % (op, _VMM[0], _VMM[1] + 1) for op in (">=", "<")]
+          + ["sys.platform != %r" % sys.platform, "sys.platform == %r" % sys.platform, "sys.platform != 'nope'"])
 ATOMS = ["int", "str", "None", "Literal[1]", "Literal['a']", "bool", "Any"]
 UNIONS = ["Union[int, str]", "Union[int, None]", "Union[str, None]", "Union[Literal[1], Literal['a']]", "Union[Literal[1], None]", "Union[int, str, None]", "Union[Literal[1], Literal['a'], None]",
           "Union[Any, None]", "Union[Any, int]", "Union[bool, str]"]
@@ -34,7 +41,7 @@ KINDS = [("", "DEFAULT", "DEFAULT"), (", 1", "POSITIONAL", "DEFAULT"), (", y=1",
 
 def conditions(tier):
     prims = XPRIMS + KPRIMS
-    out = list(prims) + ["not %s" % p for p in prims]
+    out = list(prims) + ["not %s" % p for p in prims] + list(VPRIMS) + ["%s and %s" % (v, XPRIMS[0]) for v in VPRIMS[:6]] + ["%s or %s" % (XPRIMS[1], v) for v in VPRIMS[:6]]
     pairs = list(itertools.permutations(XPRIMS[:6], 2)) + [(a, b) for a in XPRIMS[:4] for b in KPRIMS[:5]] + [(b, a) for a in XPRIMS[:4] for b in KPRIMS[:5]]
     if tier == "thorough":
         pairs = list(itertools.permutations(prims, 2))
@@ -114,10 +121,8 @@ def _prim(p, env):
     if m:
         kind = env.kinds[m.group(2)] if hasattr(env, "kinds") else env[m.group(2)]
         return {"provided": kind in ("POSITIONAL", "KEYWORD"), "positional": kind == "POSITIONAL", "keyword": kind == "KEYWORD"}[m.group(1)]
-    if p.startswith("sys.version_info"):
-        return True
-    if p.startswith("sys.platform"):
-        return False
+    if p.startswith(("sys.version_info", "sys.platform")):
+        return bool(eval(p, {"sys": sys}))
     raise ValueError(p)
 
 
